@@ -71,9 +71,31 @@ def canon_answer(a):
 FULL5 = [0]      # number of 5-impl programs permuted exhaustively so far (thorough tier: capped for the time budget)
 
 
-def impl_orders(p, rng, thorough, k):
+def impl_orders(p, rng, thorough, k, nperm=None):
     """variants of p: list of Prog with different item / where-clause orders"""
     n = len(p.impls)
+    if nperm is not None:
+        out, seen = [], set()
+        for pm in itertools.permutations(range(nperm)):
+            q = pg.permute(p, rng)
+            rest = list(range(nperm, n))
+            rng.shuffle(rest)
+            impls = [("impl", i) for i in pm]
+            others = [o for o in q.order if o[0] != "impl"] + [("impl", i) for i in rest]
+            rng.shuffle(others)
+            slots = sorted(rng.sample(range(len(others) + len(impls)), len(impls)))
+            order, io, oi = [], 0, 0
+            for pos in range(len(others) + len(impls)):
+                if io < len(slots) and pos == slots[io]:
+                    order.append(impls[io]); io += 1
+                else:
+                    order.append(others[oi]); oi += 1
+            q.order = order
+            t = text_of(q)
+            if t not in seen:
+                seen.add(t)
+                out.append(q)
+        return out
     out = []
     exhaustive = thorough and (n <= 4 or (n == 5 and FULL5[0] < 15))
     if exhaustive:
@@ -122,6 +144,7 @@ class Fam:
         self.prog, self.goals, self.goal_texts, self.kind = prog, goals, goal_texts, kind
         self.fixed = None
         self.exhaustive = False
+        self.nperm = None           # permute only the first nperm impls exhaustively
         self.variants = []          # texts
         self.answers = {}           # (variant idx, solver) -> [answers]
 
@@ -162,6 +185,41 @@ def pair_family(rng, fixed=None):
     return f
 
 
+def overlap_family(rng, fixed=False):
+    """OVERLAPPING impls (program_ir, no coherence pass) with the same head instance where one is
+    conclusive and another only ambiguous (a where-clause with several / no / one solution):
+    the candidates of one goal then are Unique and Ambig(Definite) with the SAME substitution.
+    All impl orders."""
+    adts = [pg.Adt("A"), pg.Adt("B"), pg.Adt("W", 1), pg.Adt("P", 2)]
+    traits = [pg.Trait("Foo"), pg.Trait("Bar"), pg.Trait("Baz")]
+    A, B = pg.adt("A"), pg.adt("B")
+    impls = [pg.Impl(0, ("Bar", (A,))), pg.Impl(0, ("Bar", (B,)))]
+    if not fixed and rng.random() < 0.5:
+        impls.append(pg.Impl(0, ("Baz", (A,))))
+    if fixed:
+        heads = [pg.adt("W", pg.var(0))]
+    else:
+        heads = [rng.choice([pg.adt("W", pg.var(0)), pg.adt("P", pg.var(0), pg.var(0)), pg.adt("P", pg.var(0), A), pg.adt("W", pg.adt("W", pg.var(0)))])]
+    h = heads[0]
+    foo = [pg.Impl(1, ("Foo", (h,))), pg.Impl(1, ("Foo", (h,)), [("Bar", (pg.var(0),))])]
+    if not fixed and rng.random() < 0.4:
+        foo.append(pg.Impl(1, ("Foo", (h,)), [("Baz", (pg.var(0),))]))
+    if not fixed and rng.random() < 0.3:
+        foo.append(pg.Impl(0, ("Foo", (pg.subst_ty(h, {0: A}),))))
+    rng.shuffle(foo)
+    foo = foo[:4 - 0]
+    # only the Foo impls are permuted exhaustively: keep the others first (<= 4 Foo impls: 24 orders)
+    p = pg.Prog(adts, traits, foo + impls, "overlap-conditional")
+    goals = [("exists", (1,), ("atom", ("Foo", (pg.var(1),)))),
+             ("exists", (1,), ("atom", ("Foo", (pg.subst_ty(h, {0: pg.var(1)}),)))),
+             ("exists", (1, 2), ("and", (("atom", ("Foo", (pg.var(1),))), ("atom", ("Bar", (pg.var(2),)))))),
+             ("atom", ("Foo", (pg.subst_ty(h, {0: A}),)))]
+    f = Fam(p, goals, [pg.goal_text(g) for g in goals], "fragment:overlap-conditional")
+    f.nperm = len(foo)
+    f.exhaustive = True
+    return f
+
+
 def gen_families(ctx):
     rng = ctx.rng
     fams = []
@@ -185,6 +243,9 @@ def gen_families(ctx):
     fams.append(pair_family(rng, [pg.adt("Pair", pg.adt("A"), pg.adt("A")), pg.adt("Pair", pg.adt("B"), pg.adt("C"))]))
     for _ in range(ctx.n(4, 40)):
         fams.append(pair_family(rng))
+    fams.append(overlap_family(rng, fixed=True))
+    for _ in range(ctx.n(3, 30)):
+        fams.append(overlap_family(rng))
     for _ in range(ctx.n(10, 110)):
         p = pg.gen_program(rng)
         gg = pg.GoalGen(rng, p)
@@ -214,7 +275,7 @@ def run(ctx):
     thorough = not ctx.quick
     cases, meta = [], []
     for fi, f in enumerate(fams):
-        vs = (f.fixed or []) + impl_orders(f.prog, rng, thorough or f.exhaustive, ctx.n(2, 6))
+        vs = (f.fixed or []) + impl_orders(f.prog, rng, thorough or f.exhaustive, ctx.n(2, 6), f.nperm)
         base = text_of(f.prog)
         f.variants = [base] + [text_of(q) for q in vs if text_of(q) != base]
         for vi, t in enumerate(f.variants):
